@@ -394,6 +394,7 @@ func runC03(c *Ctx) {
 	clauseMarkImpliesAdd(c, "C03.f")
 	runC03extra(c, at)
 	clauseOwnerNameDedup(c, "C03.j")
+	clauseStreamStartRefreshed(c, "C03.l")
 	clauseGzipHelperOnlyForGzip(c, "C03.k")
 	c.assume("compress/gzip, klauspost/zstd and tar-split produce valid streams; countWriter counts the bytes handed to the buffered writer")
 }
@@ -665,9 +666,19 @@ func runC14(c *Ctx) {
 
 	// ---------- C14.b ----------
 	c.clause("C14.b", "T5", "one pair of landmark constants: forced onto stream boundaries by Build, dropped from the input by importTar, emitted by sortEntries, looked up by the runtime prefetch and hidden by the FUSE layer", 5)
+	anchorsC14b := [][2]string{{esp, "Build"}, {esp, "importTar"}, {esp, "sortEntries"}, {"fs/layer", "(*layer).prefetch"}, {"fs/layer", "(*node).Lookup"}}
+	isAnchor := map[*ssa.Function]bool{}
+	for _, x := range anchorsC14b {
+		if f := c.fn(x[0], x[1]); f != nil {
+			isAnchor[f] = true
+		}
+	}
 	usesBoth := func(f *ssa.Function) bool {
 		has := map[string]bool{}
 		for _, g := range c.withHelpers(f) {
+			if r := enclosingRoot(g); r != f && isAnchor[r] {
+				continue // another anchor's own use does not count for this one
+			}
 			eachInstr(g, func(i ssa.Instruction) {
 				var ops []*ssa.Value
 				for _, op := range i.Operands(ops) {
@@ -682,7 +693,7 @@ func runC14(c *Ctx) {
 		}
 		return has[pfl] && has[npfl]
 	}
-	for _, x := range [][2]string{{esp, "Build"}, {esp, "importTar"}, {esp, "sortEntries"}, {"fs/layer", "(*layer).prefetch"}, {"fs/layer", "(*node).Lookup"}} {
+	for _, x := range anchorsC14b {
 		if f := c.mustFn(x[0], x[1]); f != nil {
 			c.verdict(c.fnKey(f)+":landmark-constants", f.Pos(), usesBoth(f), "uses both landmark names", "does not use both landmark constants: builder and runtime disagree on the landmark names")
 		}
@@ -845,6 +856,8 @@ func runC14(c *Ctx) {
 		}
 	}
 	clauseMarkImpliesAdd(c, "C14.f")
+	clauseStreamStartRefreshed(c, "C14.g")
+	clauseCleanNameViaPathClean(c, "C14.h")
 	c.clause("C14.d2", "T1", "the remaining-entries dump skips exactly the picked names", 1)
 	// tarFile.dump skips picked names
 	if f := c.mustFn(esp, "(*tarFile).dump"); f != nil {
